@@ -71,8 +71,14 @@ def servable_name(name, toplevel=True, full=False):
     return True
 
 
-def names(gopher_ok=True, hostile_ratio=0.4, toplevel=True, full=False):
+long_name = st.builds(lambda c, n, e: c * n + e, st.sampled_from(["a", "b9", "\xe9", "x y", "\xc3\xa9"]),
+                      st.integers(40, 110), st.sampled_from(TAME_EXT)).filter(lambda n: len(n) <= 230)
+
+
+def names(gopher_ok=True, hostile_ratio=0.4, toplevel=True, full=False, long_ratio=0):
     s = st.one_of(tame_name, tame_name, hostile_name(gopher_ok)) if hostile_ratio else tame_name
+    if long_ratio:
+        s = st.one_of(s, s, long_name)
     return s.filter(lambda n: servable_name(n, toplevel, full))
 
 
